@@ -19,14 +19,16 @@ BOUNDS = {
     "quick": {"registers": "every register number 0..31 (CSR: 0..4095), all operands symbolic at once",
               "immediates": "[-2**33, 2**33]; obligation stated for the manual's documented operand range",
               "branch/jump distance": "twice the documented reach, every even instruction address below 2**32",
-              "instruction classes": "every class of ppci.arch.riscv.instructions / rvc_instructions with syntax + tokens"},
+              "instruction classes": "every class of ppci.arch.riscv.instructions / rvc_instructions with syntax + tokens",
+              "pseudo-instructions": "li rd, imm: rd 0..31, imm -2**31 .. 2**32-1, machine state fully symbolic (x1..x31, pc, memory)"},
 }
 BOUNDS["thorough"] = dict(BOUNDS["quick"])
 BOUNDS["thorough"]["immediates"] = BOUNDS["quick"]["immediates"].replace("2**33", "2**48")
 BOUNDS["thorough"]["branch/jump distance"] = BOUNDS["quick"]["branch/jump distance"].replace("twice", "16 times")
 OUTSIDE = ["arm, thumb, x86_64, msp430, avr, m68k, mips, or1k, xtensa, microblaze (no reference decoder available here)",
            "F/D floating-point instruction classes (rvf/rvfx modules)",
-           "pseudo-instructions without an encoding of their own (Li, La, Labelrel and the rvc selection helpers Andv, Lwv, ...)",
+           "pseudo-instructions whose expansion needs relocations (La, Labelrel), data directives, and the rvc selection helpers "
+           "Andv, Lwv, ... (not registered in the ISA object); li rd, imm IS covered (rendered sequence executed)",
            "immediates outside the manual's documented range (whether encode() must reject them is C10)",
            "hi/lo style label operands (lui/auipc/addi/lw with a label): only the base encoding is compared, the relocated field is C10/C11",
            "the assembler's text path (string -> instruction object)"]
@@ -37,6 +39,7 @@ ASSUMPTIONS = ["ref/rv32.py states the RISC-V Unprivileged ISA manual 20191213 c
                "any exception out of encode()/relocation.apply() = operand combination rejected"]
 SHIMS_USED = ["isinstance", "int", "range", "bytes", "bytearray", "struct", "bool"]
 JOB_TIMEOUT = {"quick": 150, "thorough": 600}
+M32 = (1 << 32) - 1
 TASKS_PER_CHILD = 64
 
 
@@ -109,6 +112,76 @@ class SlicingHarness(Harness):
         return res
 
 
+class PseudoEffectHarness(_rv.PseudoHarness):
+    """pseudo-instructions that expand through render(): the rendered sequence (real render() + encode()) is
+    executed by rv32.step from a symbolic state; its architectural effect must be what the printed
+    pseudo-instruction means in the manual's pseudo-instruction table (li rd, imm: rd = imm, nothing else)"""
+    PREFIX = "rv.pseudo"
+    W = 72
+
+    def inputs(self, mk):
+        d = self.operand_inputs(mk)
+        for k in range(1, 32):
+            d[f"x{k}"] = mk.int(f"x{k}", 0, M32)
+        d["pc"] = mk.int("pc", 0, M32 - 1)
+        mk.assume(d["pc"] % 2 == 0)
+        for k in range(8):
+            d[f"m{k}"] = mk.int(f"m{k}", 0, 255)
+        d["probe"] = mk.int("probe", 0, M32)
+        d["k"] = mk.int("k", 1, 31)
+        return d
+
+    def run(self, i):
+        return self.expand(i)
+
+    def post(self, i, out):
+        import z3
+        if not out.ok:
+            return {"harness-ran": False}
+        r = out.value
+        if r[0] == "rejected":
+            return {"rejected": True}
+        _, seq, printed, used, defined, after = r
+        if not seq or any(len(d) not in (2, 4) for d in seq):
+            return {"instruction-length": False}
+        words = [(_rv.le(d), len(d)) for d in seq]
+        mem = [i[f"m{k}"] for k in range(8)]
+        xs = [0] + [i[f"x{k}"] for k in range(1, 32)]
+        symbolic = any(type(v) is not int for v in xs + mem + printed + [w for w, n in words] + [i["pc"], i["probe"], i["k"]])
+        if symbolic:
+            X = z3.Array("X", z3.BitVecSort(5), z3.BitVecSort(32))
+            link = [z3.Select(X, z3.BitVecVal(k, 5)) == core.to_bv(xs[k], 32) for k in range(1, 32)]
+            s0 = rv32.make_state(rv32.RegArray(X), core.to_bv(i["pc"], 32), membytes=mem)
+        else:
+            link = []
+            s0 = rv32.make_state(xs, i["pc"], membytes=mem)
+        o = s0.ops
+        t, legal, total = s0, True, 0
+        for w, n in words:
+            t = rv32.step(t, w, n)
+            legal = o.and_(legal, t.legal, o.not_(t.system))
+            total += n
+        rr = rv32.read_reg
+        assert self.spec["effect"] == "li"
+        rd, imm = o.val(printed[0]), o.val(printed[1])
+        k, probe = o.val(i["k"]), o.val(i["probe"])
+        prem = o.and_(True, *link)
+
+        def imp(a, b):
+            return o.or_(o.not_(a), b)
+        w_ = lambda b: core.SymBool(b) if z3.is_expr(b) else bool(b)   # noqa
+        return {"executes: every rendered word is an RV32IMC instruction": w_(imp(prem, legal)),
+                "effect: rd holds the constant": w_(imp(prem, o.or_(o.eq(rd, o.val(0)), o.eq(rr(t, rd), imm)))),
+                "effect: no other register changes": w_(imp(prem, o.or_(o.eq(k, rd), o.eq(rr(t, k), rr(s0, k))))),
+                "effect: falls through": w_(imp(prem, o.eq(t.pc, o.add(s0.pc, o.val(total))))),
+                "effect: memory unchanged": w_(imp(prem, o.eq(t.mem.load_byte(probe), s0.mem.load_byte(probe)))),
+                "render leaves the printed operands unchanged": core.sym_eq(list(after), list(printed))}
+
+
+def mk_pseudo(**kw):
+    return PseudoEffectHarness(**kw)
+
+
 def mk_enc(**kw):
     return EncodingHarness(**kw)
 
@@ -141,6 +214,8 @@ def jobs(tier, seed):
     claimed, unclaimed = _rv.discover()
     for (arch, idx, cls, mn, ks) in claimed:
         js.append(("mk_enc", dict(arch=arch, idx=idx, cls=cls, mn=mn, ks=ks, wide=int(tier == "thorough"))))
+    for (arch, idx, cls, mn, ks) in _rv.discover(True):
+        js.append(("mk_pseudo", dict(arch=arch, idx=idx, cls=cls, mn=mn, ks=ks, wide=int(tier == "thorough"))))
     only = os.environ.get("VERIF_ONLY")
     if only:
         js = [j for j in js if only in repr(j)]
